@@ -339,3 +339,19 @@ CHECKS["C11"] = dict(
     assumptions=WAIT_ASSUME,
     deadline=dict(quick=150, thorough=900),
 )
+
+CHECKS["C19"] = dict(
+    quick=[R("h_popen", "bound=0")],
+    thorough=[R("h_popen", "bound=0")],
+    rule="complete cross product: 4 poll methods x request type r/w x 16 child scripts (exits before the parent continues, dies on the 1st / "
+         "2nd / 3rd / 5th termination request, ignores them (dies on the unconditional kill), exits spontaneously at blocking point "
+         "0/1/2/3/6/7, i.e. between two signals, or at the very instant sleep 0/1/2/6 ends, so that SIGCHLD and the due timer are handled in one round) x 5 close timings (right after submit, from a timer now / at 1 s / at 7 s, never closed); "
+         "virtual time runs across all 5 s ticks; every case is distinct and non-trivial",
+    explanation="the library's child-side code runs in a real helper whose execvp is replaced by an inspection of descriptors 0/1/2 (pipe inode "
+                "and direction vs the descriptor handed to the caller, null device for the others, no stray pipe ends, token round trip); the "
+                "signal log of the simulated process table must be TERM x<=5 then KILL at exact 5 s spacing from the close, with nothing "
+                "after the termination was reaped; at the end the child is reaped, iv_main has returned, ledger balanced",
+    assumptions=["fork/wait4/kill served from a simulated process table; SIGCHLD raised synchronously at the next blocking point after a child "
+                 "ended", "virtual clock", "no schedule dimension: the library code involved is single-threaded here (C11 covers threads)"],
+    deadline=dict(quick=60, thorough=120),
+)
